@@ -271,8 +271,9 @@ func c15SysCases(tier string) int {
 }
 
 func c15Sys(c *core.C, idx int) {
-	if _, err := exec.LookPath("strace"); err != nil {
-		c.Note("strace not found: %v", err)
+	if why := c15SysProbe(c.Tmp); why != "" {
+		// no verdict without a working injector: the required sys_* counters stay at zero (inconclusive)
+		c.Note("system-call part skipped, strace cannot inject here: %s", why)
 		return
 	}
 	cmds := c15SysCmds(idx / len(c15SysCmds(0)))
@@ -403,4 +404,22 @@ func c15SysFileClass(p string) string {
 		base = "*" + base[i:]
 	}
 	return fmt.Sprintf("%s@%d", base, strings.Count(p, "/"))
+}
+
+// c15SysProbe checks that strace can trace a child and inject a failing write on a given path in this sandbox.
+func c15SysProbe(tmp string) string {
+	if _, err := exec.LookPath("strace"); err != nil {
+		return err.Error()
+	}
+	dir := filepath.Join(tmp, "c15probe")
+	os.MkdirAll(dir, 0o755)
+	defer os.RemoveAll(dir)
+	target, log := filepath.Join(dir, "t"), filepath.Join(dir, "log")
+	cmd := exec.Command("strace", "-f", "-qq", "-o", log, "-e", "trace=write", "-e", "inject=write:error=ENOSPC:when=1", "-P", target, "sh", "-c", "echo x > "+target)
+	out, _ := cmd.CombinedOutput()
+	data, _ := os.ReadFile(log)
+	if !strings.Contains(string(data), "(INJECTED)") {
+		return "probe did not inject: " + clip(out)
+	}
+	return ""
 }
